@@ -141,7 +141,23 @@ func c02InitOps() error {
 }
 
 // c02ApplyOp applies one operation to root v (w is the same root of an isomorphic heap).
-func c02ApplyOp(op string, v, w starlark.Value) (cls byte, detail string) {
+func c02ApplyOp(op string, v, w starlark.Value, others *starlark.List) (cls byte, detail string) {
+	if base, ok := map[string]string{"eqx": "eq", "ltx": "lt", "sortedx": "sorted"}[op]; ok {
+		// the node against every node of the other heap, both ways round; every comparison must terminate
+		cls = 'o'
+		for i := 0; i < others.Len(); i++ {
+			for _, pair := range [][2]starlark.Value{{v, others.Index(i)}, {others.Index(i), v}} {
+				c, d := c02ApplyOp(base, pair[0], pair[1], nil)
+				if c == 'p' {
+					return c, d
+				}
+				if c == 'E' {
+					cls, detail = c, d
+				}
+			}
+		}
+		return cls, detail
+	}
 	defer func() {
 		if r := recover(); r != nil {
 			cls, detail = 'p', trunc(fmt.Sprint(r), 300)
@@ -252,7 +268,7 @@ func c02RunGraph(g *c02GraphCase) (*c02GraphResult, error) {
 			if c02Progress != nil {
 				c02Progress(fmt.Sprintf("%d %s", r, op))
 			}
-			cls, detail := c02ApplyOp(op, v, w)
+			cls, detail := c02ApplyOp(op, v, w, b)
 			got[i] = cls
 			res.N++
 			if cls == 'm' || cls == 'E' {
